@@ -83,3 +83,8 @@ chk('C06', 'exploration',
     'Widths above the bound not covered; the same width monitor also runs inside the explorers of the state-graph checks.',
     'bounded exhaustive input/configuration enumeration with an invariant monitor on every wire',
     'DESIGN.md 4/C06')
+chk('C17', 'model_checking',
+    'Closed loop UARTSerializer -> line -> ClockGenerationAndRecovery + UARTDeserializer explored breadth-first per divider ratio and byte alphabet together with environment automata (producer that raises valid at any cycle and holds it, consumer with a bounded stall budget, independent soft 8N1 receiver on the tx wire) and a FIFO scoreboard; every handshake timing is enumerated to closure; exactly-once / in-order / unchanged delivery, 8N1 framing and bounded liveness are checked on every transition.',
+    'Monitors in mc/refmodels/proto_uart.py trusted; ratios n in {2..6,8} (4..16 clocks per bit), alphabets of 6/16 bytes closed under sequences plus all 256 values pairwise with their complement; consumer stall bounded by 1 (quick) / 8 (thorough) bit periods; <= 2 outstanding bytes. One known finding (F-C17-1) is listed in known_findings.json.',
+    'explicit-state model checking of the closed-loop implementation with environment and monitor automata',
+    'DESIGN.md 4/C17')
